@@ -811,8 +811,11 @@ func (db *DB) newTransaction(update, isManaged bool) *Txn {
 	txn := &Txn{
 		update: update,
 		db:     db,
-		count:  1,                       // One extra entry for BitFin.
-		size:   int64(len(txnKey) + 10), // Some buffer for the extra entry.
+		count:  1, // One extra entry for BitFin.
+		// Reserve room for the end-of-transaction marker that commitAndSend appends:
+		// its key (txnKey plus the 8 byte timestamp suffix), its two meta bytes and its
+		// value, the commit timestamp in decimal (at most 20 digits).
+		size: int64(len(txnKey) + 8 + 2 + 20),
 	}
 	if update {
 		if db.opt.DetectConflicts {
